@@ -750,3 +750,145 @@ pub fn edge_replay(args: &Args) -> i32 {
     }
     0
 }
+
+// ---------------------------------------------------------------- all pairs
+
+struct BitSink {
+    out: Vec<u8>,
+    acc: u64,
+    n: u32,
+}
+
+impl BitSink {
+    fn put(&mut self, v: u64, nbits: u32, msb: bool) {
+        for i in 0..nbits {
+            let bit = if msb { (v >> (nbits - 1 - i)) & 1 } else { (v >> i) & 1 };
+            self.acc |= bit << self.n;
+            self.n += 1;
+            if self.n == 8 {
+                self.out.push(self.acc as u8);
+                self.acc = 0;
+                self.n = 0;
+            }
+        }
+    }
+    fn fields(&mut self, fs: &Value) {
+        for f in fs.as_array().unwrap() {
+            let v = f[0].as_u64().unwrap();
+            let nb = f[1].as_u64().unwrap() as u32;
+            let kind = f[2].as_u64().unwrap();
+            let rep = f.get(3).and_then(|x| x.as_u64()).unwrap_or(1);
+            if kind == 2 {
+                assert_eq!(self.n, 0);
+                for i in 1..=rep {
+                    self.out.push(varied(v, i));
+                }
+            } else {
+                for _ in 0..rep {
+                    self.put(v, nb, kind == 1);
+                }
+            }
+        }
+    }
+    fn finish(mut self) -> Vec<u8> {
+        if self.n > 0 {
+            self.out.push(self.acc as u8);
+        }
+        self.out
+    }
+}
+
+/// C03 / C07 thorough: every (length, distance, spelling of 258) pair under the
+/// fixed code and under a dynamic code, composed from the specification's tables
+pub fn pairs_replay(args: &Args) -> i32 {
+    quiet_panics();
+    let t: Value = serde_json::from_str(&std::fs::read_to_string(args.req("tables")).unwrap()).unwrap();
+    let per = args.num("per", 4096) as usize;
+    let stride = args.num("stride", 1) as usize; // quick: every stride-th distance
+    let threads = args.num("threads", 12) as usize;
+    let lens: Vec<(usize, u32, u64)> = t["lens"].as_array().unwrap().iter().map(|r| (r[0].as_u64().unwrap() as usize, r[1].as_u64().unwrap() as u32, r[2].as_u64().unwrap())).collect();
+    let dists: Vec<(usize, u32, u64)> = t["dists"].as_array().unwrap().iter().map(|r| (r[0].as_u64().unwrap() as usize, r[1].as_u64().unwrap() as u32, r[2].as_u64().unwrap())).collect();
+    let irr = (t["irr258"][0].as_u64().unwrap() as usize, t["irr258"][1].as_u64().unwrap() as u32, t["irr258"][2].as_u64().unwrap());
+    let seed = t["prefix_seed"].as_u64().unwrap();
+    let plen = t["prefix_len"].as_u64().unwrap();
+    let prefix_plain: Vec<u8> = (1..=plen).map(|i| varied(seed, i)).collect();
+    // all pairs in a fixed order: (len index 0..256 where 256 = the irregular 258, distance)
+    let mut pairs: Vec<(u16, u16)> = Vec::new();
+    for d in (1..=32768usize).step_by(stride) {
+        for l in 0..=256usize {
+            pairs.push((l as u16, d as u16));
+        }
+    }
+    let nstreams = (pairs.len() + per - 1) / per;
+    let out = Mutex::new(std::io::BufWriter::new(std::fs::File::create(args.req("out")).unwrap()));
+    let counts = Mutex::new((0u64, 0u64)); // pairs checked, violations
+    for code in ["fixed", "dyn"] {
+        let c = &t[code];
+        let tab = |k: &str| -> Vec<u64> { c[k].as_array().unwrap().iter().map(|x| x.as_u64().unwrap()).collect() };
+        let (lc, ll, dc, dl) = (tab("lc"), tab("ll"), tab("dc"), tab("dl"));
+        par_for(nstreams, threads, |si, _| {
+            let chunk = &pairs[si * per..((si + 1) * per).min(pairs.len())];
+            let mut b = BitSink { out: Vec::new(), acc: 0, n: 0 };
+            b.fields(&t["prefix"]);
+            b.fields(&c["hdr"]);
+            let mut plain = prefix_plain.clone();
+            let mut toks: Vec<Tok> = Vec::with_capacity(chunk.len());
+            for &(li, d) in chunk {
+                let (len, row, irregular) = if li == 256 { (258usize, irr, true) } else { (li as usize + 3, lens[li as usize], false) };
+                let dr = dists[d as usize - 1];
+                b.put(lc[row.0], ll[row.0] as u32, true);
+                b.put(row.2, row.1, false);
+                b.put(dc[dr.0], dl[dr.0] as u32, true);
+                b.put(dr.2, dr.1, false);
+                toks.push(Tok::Ref { len: len as u32, dist: d as u32, irregular258: irregular });
+                let start = plain.len() - d as usize;
+                for k in 0..len {
+                    let x = plain[start + k];
+                    plain.push(x);
+                }
+            }
+            b.put(lc[256], ll[256] as u32, true);
+            let bytes = b.finish();
+            let mut why: Vec<(&str, String)> = Vec::new();
+            let z = gen::zlib_inflate_raw(&bytes, 1 << 30);
+            if !z.ok || z.plain != plain || z.consumed != bytes.len() {
+                why.push(("MODEL", format!("zlib disagrees with the composed stream (ok={}, {} vs {} bytes)", z.ok, z.plain.len(), plain.len())));
+            }
+            match guarded(|| verif::parse(&bytes)) {
+                Err(p) => why.push(("C05", format!("parser panicked: {}", p))),
+                Ok(Err(e)) => why.push(("NOTE", format!("parser refuses a valid stream: {:?}", e.exit_code()))),
+                Ok(Ok(tr)) => {
+                    if tr.plain != plain || tr.consumed != bytes.len() {
+                        why.push(("C03", "plaintext or consumed length differs from what the tokens denote".into()));
+                    }
+                    if tr.blocks.len() != 2 || tr.blocks[1].tokens != toks {
+                        let at = tr.blocks.get(1).and_then(|b| b.tokens.iter().zip(toks.iter()).position(|(a, b)| a != b));
+                        why.push(("C03", format!("the parser's tokens differ from the composed ones (first at {:?}: {:?})", at, at.map(|i| (&tr.blocks[1].tokens[i], &toks[i])))));
+                    }
+                }
+            }
+            match guarded(|| verif::parse_and_rewrite(&bytes)) {
+                Err(p) => why.push(("C07", format!("parse_and_rewrite panicked: {}", p))),
+                Ok(Err(_)) => {}
+                Ok(Ok((rew, consumed, _))) => {
+                    if consumed != bytes.len() || rew != bytes {
+                        let at = rew.iter().zip(bytes.iter()).position(|(a, b)| a != b);
+                        why.push(("C07", format!("parse then re-serialise differs from the input (first difference at byte {:?} of {})", at, bytes.len())));
+                    }
+                }
+            }
+            let mut g = counts.lock().unwrap();
+            g.0 += chunk.len() as u64;
+            for (prop, w) in why {
+                g.1 += 1;
+                if g.1 < 30 {
+                    writeln!(out.lock().unwrap(), "{}", json!({"kind":"violation","prop":prop,"code":code,"first_pair":[chunk[0].0, chunk[0].1],"pairs":chunk.len(),"why":w,
+                        "hex": if bytes.len() < 100000 { hex(&bytes) } else { String::new() }})).unwrap();
+                }
+            }
+        });
+    }
+    let g = counts.lock().unwrap();
+    writeln!(out.lock().unwrap(), "{}", json!({"kind":"summary","pairs":g.0,"streams":2 * nstreams,"problems":g.1,"stride":stride})).unwrap();
+    0
+}
